@@ -147,7 +147,7 @@ class Gen:
             return ('url', r.choice(['"img/a.png"', "'b.gif'", '"http://x.y/z.png"']))
         return ('word', r.choice(WORDS))
 
-    def value(self, scopevars):
+    def value(self, scopevars, for_variable=False):
         """comma list of space lists; strings and urls only where a following blank is not needed"""
         r = self.rng
         out = []
@@ -157,7 +157,7 @@ class Gen:
             n = r.choice([1, 1, 2, 2, 3, 4])
             for i in range(n):
                 a = self.atom(scopevars)
-                if a[0] in ('str', 'url') and i != n - 1:
+                if a[0] in ('str', 'url') and (i != n - 1 or for_variable):
                     a = ('word', r.choice(WORDS))
                 if i:
                     out.append(('sp',))
@@ -194,14 +194,14 @@ class Gen:
                 if pool:
                     nm = r.choice(pool)
                     self.nvar += 1
-                    out.append(('var', nm, self.value([v for v in scopevars if v != nm])))
+                    out.append(('var', nm, self.value([v for v in scopevars if v != nm], for_variable=True)))
                     defined_here.add(nm)
                     if nm not in scopevars:
                         scopevars.append(nm)
                 else:
                     out.append(self.decl(scopevars) if in_rule else self.rule(max(depth - 1, 0), False, scopevars, media_depth))
             elif depth > 0 and k < 0.4:
-                out.append(self.rule(depth - 1, True, scopevars, media_depth))
+                out.append(self.rule(depth - 1, in_rule, scopevars, media_depth))
             elif depth > 0 and 'media' in self.f and k < 0.5 and media_depth < 2:
                 out.append(('media', self.query(allow_type=(media_depth == 0)), self.body(depth - 1, in_rule, scopevars, media_depth + 1)))
             elif 'keyframes' in self.f and not in_rule and media_depth >= 1 and k < 0.6:
@@ -233,7 +233,7 @@ class Gen:
             if 'var' in self.f and k < 0.15:
                 self.nvar += 1
                 nm = '@v%d' % self.nvar
-                out.append(('var', nm, self.value(scopevars)))
+                out.append(('var', nm, self.value(scopevars, for_variable=True)))
                 scopevars.append(nm)
             elif 'media' in self.f and k < 0.3:
                 out.append(('media', self.query(), self.body(max(depth - 1, 1), False, scopevars, 1)))
@@ -504,6 +504,25 @@ def sel_count(stmts, parents=1):
         elif s[0] == 'media':
             worst = max(worst, sel_count(s[2], parents))
     return worst
+
+
+def media_feature_first(stmts, feature_first_outer=False):
+    """classifier of known finding F5b: a media query that starts with a feature and has a second one prints ')and (' when read
+    from source (pinned by test/css/media.css); merged with an outer query the spelling survives into the output, and an output
+    query that starts with a feature is re-read that way"""
+    for s in stmts:
+        if s[0] == 'media':
+            typ, feats = s[1]
+            if typ is None and len(feats) >= 2:
+                return True
+            if feature_first_outer and len(feats) >= 1:
+                return True
+            if media_feature_first(s[2], feature_first_outer or typ is None):
+                return True
+        elif s[0] == 'rule':
+            if media_feature_first(s[2], feature_first_outer):
+                return True
+    return False
 
 
 def has_amp_after_bracket(stmts, any_attr=None):
